@@ -72,7 +72,9 @@ def alternatives(node, fname, val):  # noqa: C901
         alts = [r for r in ReturnType if r != val]
         return [("return-type", alts[0], False)]
     if isinstance(val, np.ndarray):
-        return [("other-buffer", val.copy(), False)]
+        ch = val.copy()
+        ch.flat[0] = ch.flat[0] + 1
+        return [("other-buffer", val.copy(), False), ("element-changed", ch, False)]
     if isinstance(val, (pt.Array,)):
         return [("other-array", _other_array_like(val), False)]
     if isinstance(val, FunctionDefinition):
